@@ -24,9 +24,19 @@ def load_corpus(pid):
             with open(path) as f:
                 for line in f:
                     line = line.strip()
+                    if line == "# strict":
+                        s.strict = True
                     if not line or line.startswith("#") or line.startswith("session"):
                         continue
-                    s.ops.append(parse_line(line))
+                    op = parse_line(line)
+                    # link `decap p:<reg>` / `peek p:<reg>` to the op that produced the packet
+                    if op.get("op") in ("decap", "peek") and re.fullmatch(r"p:\d+", op.get("expr", "")):
+                        r = int(op["expr"][2:])
+                        for j in range(len(s.ops) - 1, -1, -1):
+                            if s.ops[j].get("reg") == r and s.ops[j].get("op") in ("encap", "encap_ext", "encap_frag"):
+                                op["of"] = j
+                                break
+                    s.ops.append(op)
             out.append(s)
     return out
 
@@ -259,7 +269,7 @@ def _prepare_state(s, rng, which):
     elif which == "huge":
         s.dec_new(1, 70000, None)
         s.prov(70000, 0)
-        s.decap("h:a0080100ffff0800aa")
+        s.decap("h:a00601ffff0800aa")
 
 
 STATES = ["fresh", "nostorage", "zeroslots", "tiny", "open", "full"]
@@ -356,7 +366,7 @@ def suite_states(rng, tier):
     s = Session("st-huge")
     s.dec_new(1, 70000, None)
     s.prov(70000, 0)
-    s.decap("h:a0080100ffff0800aa")
+    s.decap("h:a00601ffff0800aa")
     for k in range(20):
         s.decap("h:3fff01+g:%d:4094" % k)
     s.decap("h:700501deadbeef")
@@ -364,7 +374,7 @@ def suite_states(rng, tier):
     s = Session("st-wrap")     # a train 65536 bytes too long must not pass the length check
     s.dec_new(1, 140000, None)
     s.prov(140000, 0)
-    s.decap("h:a0080100000b0800aa")   # total length 11 = 9 + 2
+    s.decap("h:a00601000b0800aa")   # total length 11 = 9 + 2
     for k in range(17):
         s.decap("h:3fff01+g:%d:4094" % k)
     s.decap("h:700501deadbeef")
@@ -769,6 +779,10 @@ def suite_extlattice(rng, tier):
                         if big:
                             mg[0x42] = ("N", min(255, len(ch[0][1])))
                             s.strict = False       # a manager cannot describe more than 255 data bytes
+                        if pt >= 0x600:
+                            for eid, ed in ch:      # every mandatory extension is used as a non-final one
+                                if eid < 0x100:
+                                    mg[eid] = ("N", min(255, len(ed)))
                         if pt < 0x100 and pt == last:
                             mg[last] = ("F", min(255, len(ch[-1][1])))   # the receiver knows it as final, as the sender uses it
                         mini_transfer(s, rng, bs_gen(n, pl), 2, pt, lab, bl, exts=ch, mgr=mg)
